@@ -9,6 +9,7 @@ package main
 import (
 	"crypto/aes"
 	"crypto/cipher"
+	"encoding/json"
 	"errors"
 	"fmt"
 	"strings"
@@ -344,6 +345,58 @@ func engineC05(c *vctx) error {
 		k = c05RandKey(rng)
 		k.MACKey.R = [16]byte{0, 0, 0, 0xf0, 0x03, 0, 0, 0xf0, 0x03, 0, 0, 0xf0, 0x03, 0, 0, 0xf0}
 		group("degenerate-r", k, rng.bytes(16), rng.bytes(20), rng, 4, nil)
+	}
+
+	// ---- one Key VALUE reused for several key materials (fields assigned in place or json.Unmarshal into it):
+	// Seal/Open must be functions of the key bytes at call time.  Seal by the reused variable is opened by a
+	// fresh Key built from the same bytes, and the other way round; the round-trip clause judges both. ----
+	{
+		reused := &crypto.Key{}
+		for i := 0; i < c.n(12, 120); i++ {
+			fresh := c05RandKey(rng)
+			switch i % 3 {
+			case 0: // assign the parts
+				reused.EncryptionKey = fresh.EncryptionKey
+				reused.MACKey = fresh.MACKey
+			case 1: // only the encryption key changes, the MAC key stays
+				copy(fresh.MACKey.K[:], reused.MACKey.K[:])
+				copy(fresh.MACKey.R[:], reused.MACKey.R[:])
+				if !fresh.MACKey.Valid() {
+					fresh.MACKey = c05RandKey(rng).MACKey
+					reused.MACKey = fresh.MACKey
+				}
+				reused.EncryptionKey = fresh.EncryptionKey
+			case 2: // the way key files are loaded
+				js, err := json.Marshal(fresh)
+				if err != nil {
+					return err
+				}
+				if err := json.Unmarshal(js, reused); err != nil {
+					return err
+				}
+			}
+			nonce := c05Nonce(rng, rng.intn(16))
+			pt := rng.bytes([]int{0, 1, 16, 33, 100}[rng.intn(5)])
+			how := []string{"assign", "assign-enc-only", "json"}[i%3]
+			// Seal by the reused value, Open by the fresh one
+			sealed, panicked := c05Seal(reused, nonce, nil, pt, nil)
+			var opens []string
+			if !panicked {
+				obs, _ := c05Open(fresh, nonce, nil, sealed)
+				opens = append(opens, coqTuple("MNone", obs))
+			}
+			c.Case("key-reuse-seal-"+how, true, len(pt), fmt.Sprintf("CGroup %s %s %s %s %s", c05Key(fresh), c05Hex(nonce), c05Hex(pt), c05SealTerm(sealed, panicked), coqList(opens)),
+				fmt.Sprintf("material #%d set by %s: Seal by the reused Key, Open by a fresh Key with the same bytes; len(pt)=%d", i, how, len(pt)))
+			// Seal by the fresh value, Open by the reused one
+			sealed2, panicked2 := c05Seal(fresh, nonce, nil, pt, nil)
+			var opens2 []string
+			if !panicked2 {
+				obs, _ := c05Open(reused, nonce, nil, sealed2)
+				opens2 = append(opens2, coqTuple("MNone", obs))
+			}
+			c.Case("key-reuse-open-"+how, true, len(pt), fmt.Sprintf("CGroup %s %s %s %s %s", c05Key(fresh), c05Hex(nonce), c05Hex(pt), c05SealTerm(sealed2, panicked2), coqList(opens2)),
+				fmt.Sprintf("material #%d set by %s: Seal by a fresh Key, Open by the reused Key; len(pt)=%d", i, how, len(pt)))
+		}
 	}
 
 	// ---- Seal called directly: dst prefix, additional data, nonce lengths, invalid keys ----
